@@ -141,7 +141,10 @@ class SocketStreamTransport(base_selector.SelectorStreamTransport):
         if not _utils.supports_socket_sendmsg(socket):
             return super().send_all_from_iterable(iterable_of_data, timeout)
 
-        buffers: deque[memoryview] = deque(map(memoryview, iterable_of_data))  # type: ignore[arg-type]
+        # Empty buffers are dropped: sendmsg() reports 0 bytes for them, so they would never be removed from the queue.
+        buffers: deque[memoryview] = deque(
+            buffer for buffer in map(memoryview, iterable_of_data) if buffer.nbytes > 0  # type: ignore[arg-type]
+        )
         del iterable_of_data
 
         def try_sendmsg() -> int:
